@@ -184,8 +184,8 @@ EXPORT char *_stpcpy_s_chk(char *restrict dest, rsize_t dmax,
             src++;
             /* sentinel srcbos -1 = ULONG_MAX */
             if (unlikely(slen >= srcbos)) {
-                invoke_safe_str_constraint_handler("stpcpy_s: src unterminated",
-                                                   (void *)src, ESUNTERM);
+                handle_error(orig_dest, orig_dmax,
+                             "stpcpy_s: src unterminated", ESUNTERM);
                 *errp = RCNEGATE(ESUNTERM);
                 return NULL;
             }
@@ -229,8 +229,8 @@ EXPORT char *_stpcpy_s_chk(char *restrict dest, rsize_t dmax,
             dest++;
             src++;
             if (unlikely(slen >= srcbos)) {
-                invoke_safe_str_constraint_handler("stpcpy_s: src unterminated",
-                                                   (void *)src, ESUNTERM);
+                handle_error(orig_dest, orig_dmax,
+                             "stpcpy_s: src unterminated", ESUNTERM);
                 *errp = RCNEGATE(ESUNTERM);
                 return NULL;
             }
